@@ -64,6 +64,9 @@ def run_cfg(chk, facts, cfg):
         """one-sided bound at L == two-sided bound at 2L-1 (both as code terms)."""
         b1 = one[1] if side == 'lo' else one[2]
         b2 = two[1] if side == 'lo' else two[2]
+        if isinstance(b1, int) or isinstance(b2, int):
+            chk.ob(key, 'E7-substitution', label, False, 'the %s bound is missing (unbounded side)' % side, label)
+            return
         try:
             good = nf.term_equal(b1, b2)
         except NotReal as e:
